@@ -311,6 +311,25 @@ def run_case(case):
                             discs.append(Disc("file:ast-differs:%s" % ("plain" if skip_black else "black"), "file", back[:300]))
                 except Exception as e:
                     discs.append(raise_disc(e, "file:%s" % ("plain" if skip_black else "black")))
+            # append mode (the default of emit.file): onto a file that ends without a newline (what the plain write above
+            # leaves behind) and onto one that ends with one; both definitions must be in the file, one after the other
+            for first_plain in (True, False):
+                for skip_black in (True, False):
+                    fn = os.path.join(d, "a_%s_%s.py" % (first_plain, skip_black))
+                    try:
+                        emit.file(node, fn, mode="wt", skip_black=first_plain)
+                        emit.file(node, fn, mode="a", skip_black=skip_black)
+                        with open(fn) as fh:
+                            back = fh.read()
+                        try:
+                            n_defs = len(ast.parse(back).body)
+                        except SyntaxError as e:
+                            discs.append(Disc("file:append-unparsable", "file", "%s: %r" % (e, back[-200:])))
+                            continue
+                        if n_defs != 2:
+                            discs.append(Disc("file:append-count", "file", "%d top-level statements after appending the second definition" % n_defs))
+                    except Exception as e:
+                        discs.append(raise_disc(e, "file:append"))
         finally:
             shutil.rmtree(d, ignore_errors=True)
     # layer 4
